@@ -619,7 +619,8 @@ func (c *FCtx) execRange(st *State, x *ast.RangeStmt, label string) []Flow {
 
 func (c *FCtx) zeroOrFresh(st *State, t types.Type) Val {
 	if isString(t) {
-		return c.freshVal(st, "rangeval", t)
+		// elements of []string / [N]string are abstract Str values
+		return SV{Sym(c.freshName("rangeval"), "Str"), t}
 	}
 	return c.zeroVal(st, t)
 }
@@ -651,15 +652,27 @@ func (c *FCtx) havocLike(st *State, name string, v Val) Val {
 		}
 		return TV{fs, x.Typ}
 	case LV:
+		if x.Str {
+			// strings are immutable values: a re-assigned string variable holds an arbitrary new string
+			nv := c.freshVal(st, name, x.Typ).(LV)
+			nv.Abs = Sym(c.freshName(name+"$str"), "Str")
+			return nv
+		}
 		off := Sym(c.freshName(name+"$off"), SInt)
 		ln := Sym(c.freshName(name+"$len"), SInt)
 		cp := Sym(c.freshName(name+"$cap"), SInt)
 		st.assume(And(Le(Num(0), off), Le(Num(0), ln), Le(ln, cp), Le(cp, NumB(maxLen))))
-		return LV{Cell: x.Cell, Off: off, Len: ln, Cap: cp, Elem: x.Elem, IsNil: Sym(c.freshName(name+"$nil"), SBool), Str: x.Str, Typ: x.Typ, Path: x.Path}
+		var abs *Term
+		if x.Str {
+			abs = Sym(c.freshName(name+"$str"), "Str")
+		}
+		return LV{Cell: x.Cell, Off: off, Len: ln, Cap: cp, Elem: x.Elem, IsNil: Sym(c.freshName(name+"$nil"), SBool), Str: x.Str, Typ: x.Typ, Path: x.Path, Abs: abs}
 	case PV:
 		return x
 	case FV:
 		return FV{Sym(c.freshName(name+"$has"), x.Present.S), Sym(c.freshName(name+"$val"), x.Value.S), x.Typ}
+	case TXV:
+		return TXV{Sym(c.freshName(name+"$text"), "Str"), x.Typ}
 	case XV:
 		rp := Sym(c.freshName(name+"$rpos"), SInt)
 		st.assume(Le(Num(0), rp))
@@ -703,7 +716,7 @@ func (c *FCtx) dryRun(st *State, fn func(s *State) []Flow) map[int]bool {
 		}
 		// slice variables may be re-sliced inside loops only over the same backing store
 		for k, v := range st.cells {
-			if lv, ok := v.(LV); ok {
+			if lv, ok := v.(LV); ok && !lv.Str {
 				if nv, ok := f.st.cells[k].(LV); ok && nv.Cell != lv.Cell {
 					fail("slice variable re-bound to a different backing store inside a loop")
 				}
@@ -933,6 +946,12 @@ func (c *FCtx) execLoop(st *State, lp *loopParts) []Flow {
 			ps := f.st
 			if len(spec.Asserts) > 0 {
 				aenv := c.invEnv(ps, lp.node)
+				switch x := lp.node.(type) { // loop asserts may name locals of the body: scope at its closing brace
+				case *ast.ForStmt:
+					aenv = c.bodyEnv(ps, x.Body.Rbrace)
+				case *ast.RangeStmt:
+					aenv = c.bodyEnv(ps, x.Body.Rbrace)
+				}
 				var idxLog []*Term
 				aenv.idxLog = &idxLog
 				done := map[int]*Term{}
